@@ -38,7 +38,20 @@ import (
 //              of the server of address 1 times out, Restart returns, only then does the client complete its request
 //
 //   kind = the addresses served: digits 1, 2 (free loopback ports chosen per case) and 3 (a port another listener
-//          holds), suffix x = the configuration fails during setup
+//          holds), suffix x = the configuration fails during setup (a directive refuses its arguments), suffix y = it
+//          fails while it is PARSED (unknown directive, imported file missing, unbalanced brace in an imported file)
+//          optional /<spelling> = HOW THE CONFIGURATION IS WRITTEN (same meaning, so the same answers are due):
+//            (none) one server block per address, `root` inside
+//            i      `addr { import imp/s<a>.inc }`: the directives of every site stand in a file of their own, which is
+//                   REWRITTEN for every reload (same length, different marker)
+//            I      the same, and the rewritten file keeps a fixed modification time (cp -p, rsync -t, tar)
+//            g      the Casketfile is `import sites/*.conf` (what `-conf 'sites/*'` becomes); every file one server block
+//            s      the directives stand in a snippet `(site) {…}` that every server block imports
+//            m      ONE server block with all the addresses (`a1,` newline `a2 a3 {`)
+//            o      another layout: comments, blank lines, tabs, quoted arguments, two `header` directives around `root`;
+//                   a single site without braces
+//          the configuration a reload must install is what the Casketfile text and the files it names say AT THE TIME
+//          Restart IS CALLED
 //   every site answers with its generation number, so a response says which configuration produced it
 //
 //   out = step|step|…   step = <res>;fd=<f1>.<f2>;sk=<s1>.<s2>;p=<m1>.<m2>;ni=<n>[;mid=<m>][;str=<m>]     ni = len(casket.Instances())
@@ -50,6 +63,7 @@ var c07 struct {
 	busy    net.Listener
 	p3      int
 	dir     string
+	caseDir string // Casketfile and imported files of the case being evaluated (fresh per case: a case never depends on another)
 	portCur int
 	hangs   int
 }
@@ -88,6 +102,7 @@ func c07Teardown() {
 	c07BusyPort.release()
 	c07Ports.release()
 	os.RemoveAll(c07.dir)
+	c07.caseDir = ""
 }
 
 var c07Ports, c07BusyPort verifPorts
@@ -95,14 +110,29 @@ var c07Ports, c07BusyPort verifPorts
 func c07FreePort() int { return c07Ports.reserve(false) }
 
 type c07Kind struct {
-	addrs []int
-	fail  bool
+	addrs     []int
+	fail      bool
+	parseFail bool // the failure happens while the configuration is parsed
+	sp        byte // spelling, 0 = inline
 }
+
+const c07Spellings = "iIgsmo"
 
 func c07ParseKind(s string) (c07Kind, bool) {
 	var k c07Kind
+	if i := strings.IndexByte(s, '/'); i >= 0 {
+		sp := s[i+1:]
+		if len(sp) != 1 || !strings.Contains(c07Spellings, sp) {
+			return k, false
+		}
+		k.sp = sp[0]
+		s = s[:i]
+	}
 	if strings.HasSuffix(s, "x") {
 		k.fail = true
+		s = s[:len(s)-1]
+	} else if strings.HasSuffix(s, "y") {
+		k.fail, k.parseFail = true, true
 		s = s[:len(s)-1]
 	}
 	if s == "" {
@@ -126,24 +156,116 @@ func (k c07Kind) has(a int) bool {
 	return false
 }
 
+func c07NewCaseDir() {
+	if c07.caseDir != "" {
+		os.RemoveAll(c07.caseDir)
+	}
+	d, err := os.MkdirTemp(c07.dir, "c")
+	if err != nil {
+		panic(err)
+	}
+	c07.caseDir = d
+}
+
+var c07FixedTime = time.Unix(1500000000, 0)
+
+// c07Input WRITES the configuration of kind k for generation gen in the spelling of k (files included) and returns the
+// input to hand to Start / Restart.  Every site answers with the generation; the marker has a fixed width, so rewriting a
+// file for another generation never changes its length.
 func c07Input(k c07Kind, gen int, p [4]int) casket.Input {
-	root := filepath.Join(c07.dir, fmt.Sprintf("g%d", gen))
+	root := filepath.Join(c07.dir, fmt.Sprintf("g%03d", gen))
 	os.MkdirAll(root, 0o755)
 	os.WriteFile(filepath.Join(root, "index.html"), []byte(strconv.Itoa(gen)), 0o644)
-	var b strings.Builder
+	if c07.caseDir == "" {
+		c07NewCaseDir()
+	}
+	var addrs []int
 	seen := map[int]bool{}
 	for _, a := range k.addrs {
-		if seen[a] {
-			continue
+		if !seen[a] {
+			seen[a] = true
+			addrs = append(addrs, a)
 		}
-		seen[a] = true
-		fmt.Fprintf(&b, "127.0.0.1:%d {\n root %s\n", p[a], root)
-		if k.fail {
-			b.WriteString(" timeouts bogus\n")
-		}
-		b.WriteString("}\n")
 	}
-	return casket.CasketfileInput{ServerTypeName: "http", Filepath: "verif", Contents: []byte(b.String())}
+	bad := ""
+	if k.parseFail {
+		bad = " verifnosuchdirective 1\n"
+	} else if k.fail {
+		bad = " timeouts bogus\n"
+	}
+	write := func(name, text string, keepTime bool) {
+		path := filepath.Join(c07.caseDir, name)
+		os.MkdirAll(filepath.Dir(path), 0o755)
+		if err := os.WriteFile(path, []byte(text), 0o644); err != nil {
+			panic(err)
+		}
+		if keepTime {
+			os.Chtimes(path, c07FixedTime, c07FixedTime)
+		}
+	}
+	var b strings.Builder
+	switch k.sp {
+	case 'i', 'I':
+		for i, a := range addrs {
+			fmt.Fprintf(&b, "127.0.0.1:%d {\n import imp/s%d.inc\n}\n", p[a], a)
+			name := fmt.Sprintf("imp/s%d.inc", a)
+			if k.parseFail && i == len(addrs)-1 {
+				os.Remove(filepath.Join(c07.caseDir, name)) // the imported file is missing
+				continue
+			}
+			body := " root " + root + "\n"
+			if k.fail && !k.parseFail {
+				body += bad
+			}
+			write(name, body, k.sp == 'I')
+		}
+	case 'g':
+		os.RemoveAll(filepath.Join(c07.caseDir, "sites"))
+		for i, a := range addrs {
+			body := fmt.Sprintf("127.0.0.1:%d {\n root %s\n", p[a], root)
+			if k.fail && !k.parseFail {
+				body += bad
+			}
+			write(fmt.Sprintf("sites/s%d.conf", i), body+"}\n", false)
+		}
+		if k.parseFail {
+			write("sites/s9.conf", "127.0.0.1:1 {\n root "+root+"\n", false) // the brace is never closed
+		}
+		b.WriteString("import sites/*.conf\n")
+	case 's':
+		fmt.Fprintf(&b, "(site) {\n root %s\n%s}\n", root, bad)
+		for _, a := range addrs {
+			fmt.Fprintf(&b, "127.0.0.1:%d {\n import site\n}\n", p[a])
+		}
+	case 'm':
+		for i, a := range addrs {
+			switch {
+			case i == 0:
+			case i == 1:
+				b.WriteString(",\n ")
+			default:
+				b.WriteString(" ")
+			}
+			fmt.Fprintf(&b, "127.0.0.1:%d", p[a])
+		}
+		fmt.Fprintf(&b, " {\n root %s\n%s}\n", root, bad)
+	case 'o':
+		tbad := strings.Replace(bad, " ", "\t", 1)
+		if len(addrs) == 1 {
+			fmt.Fprintf(&b, "# generation %d\n\n127.0.0.1:%d\n\nheader / X-Verif-A \"g %d\"\nroot \"%s\"\n%sheader / X-Verif-B b\n",
+				gen, p[addrs[0]], gen, root, strings.TrimPrefix(bad, " "))
+			break
+		}
+		for _, a := range addrs {
+			fmt.Fprintf(&b, "# site %d of generation %d\n127.0.0.1:%d {\n\theader / X-Verif-A \"g %d\"\n\n\troot \"%s\"   # the marker\n%s\theader / X-Verif-B b\n}\n\n",
+				a, gen, p[a], gen, root, tbad)
+		}
+	default:
+		for _, a := range addrs {
+			fmt.Fprintf(&b, "127.0.0.1:%d {\n root %s\n%s}\n", p[a], root, bad)
+		}
+	}
+	return casket.CasketfileInput{ServerTypeName: "http", Filepath: filepath.Join(c07.caseDir, "Casketfile"), Contents: []byte(b.String())}
 }
 
 type c07Sock struct {
@@ -324,7 +446,19 @@ func c07Eval(f []string) (string, []string) {
 	var p [4]int
 	c07Ports.release()
 	p[1], p[2], p[3] = c07FreePort(), c07FreePort(), c07.p3
+	c07NewCaseDir()
 	tags := map[string]bool{}
+	if k0.sp != 0 {
+		tags["written-"+string(k0.sp)] = true
+	}
+	for _, o := range ops {
+		if o.k.sp != 0 {
+			tags["written-"+string(o.k.sp)] = true
+		}
+		if o.k.parseFail {
+			tags["parse-failure"] = true
+		}
+	}
 	obs := &c07Obs{}
 	if _, err := casket.Start(c07Input(k0, 1, p)); err != nil {
 		return "setup-error:" + err.Error(), nil
@@ -538,7 +672,8 @@ func c07Storm(rng *hx.Rng, nReloads, clients int) (kinds, reloads, requests stri
 	var p [4]int
 	c07Ports.release()
 	p[1], p[2], p[3] = c07FreePort(), c07FreePort(), c07.p3
-	k0, _ := c07ParseKind("1")
+	c07NewCaseDir()
+	k0, _ := c07ParseKind("1" + hx.Pick(rng, c07StormSpellings))
 	if _, err := casket.Start(c07Input(k0, 1, p)); err != nil {
 		return "start-failed", "", ""
 	}
@@ -566,10 +701,10 @@ func c07Storm(rng *hx.Rng, nReloads, clients int) (kinds, reloads, requests stri
 			}
 		}()
 	}
-	pool := []string{"1", "12", "1", "12", "1x", "13", "12x", "123"}
+	pool := []string{"1", "12", "1", "12", "1x", "13", "12x", "123", "1y"}
 	var ks, rs []string
 	for i := 0; i < nReloads; i++ {
-		kind := hx.Pick(rng, pool)
+		kind := hx.Pick(rng, pool) + hx.Pick(rng, c07StormSpellings)
 		k, _ := c07ParseKind(kind)
 		gen := i + 2
 		in := c07Input(k, gen, p)
@@ -598,6 +733,9 @@ func c07Storm(rng *hx.Rng, nReloads, clients int) (kinds, reloads, requests stri
 	casket.VerifC08ResetInstances()
 	return strings.Join(ks, ","), strings.Join(rs, ","), strings.Join(reqs, ",")
 }
+
+// how the configurations of a storm are written: half of them inline, the others in one of the spellings of c07.handover
+var c07StormSpellings = []string{"", "", "", "", "", "", "/i", "/I", "/g", "/s", "/m", "/o"}
 
 func c07StormGen(g *hx.Gen) {
 	storms, nReloads := 10, 30
@@ -663,7 +801,7 @@ func c07StormEval(f []string) (string, []string) {
 	return fmt.Sprintf("reloads=%d/%d;requests=%d/%d", okR, allR, okQ, allQ), tags
 }
 
-var c07Kinds = []string{"1", "12", "2", "21", "1x", "12x", "13", "123", "3"}
+var c07Kinds = []string{"1", "12", "2", "21", "1x", "12x", "13", "123", "3", "1y"}
 
 func c07Gen(g *hx.Gen) {
 	starts := []string{"1", "12", "2"}
@@ -700,6 +838,50 @@ func c07Gen(g *hx.Gen) {
 	for _, c := range long {
 		g.Case(c...)
 	}
+	// HOW THE CONFIGURATION IS WRITTEN.  (a) one spelling throughout — sites in imported files that are rewritten for every
+	// reload, a glob import, a snippet, one block for all addresses, another layout —: every reload, and every reload with a
+	// request in flight, from every start; every pair of reloads over the kinds below (thorough: all kinds, R and T)
+	pairKinds := []string{"1", "12", "21", "1x", "13", "1y"}
+	if g.Thorough() {
+		pairKinds = c07Kinds
+	}
+	for _, sp := range c07Spellings {
+		w := "/" + string(sp)
+		for _, s := range starts {
+			for _, k1 := range c07Kinds {
+				g.Case("S:"+s+w, "R:"+k1+w)
+				g.Case("S:"+s+w, "T:"+k1+w)
+			}
+			for _, k1 := range pairKinds {
+				for _, k2 := range pairKinds {
+					g.Case("S:"+s+w, "R:"+k1+w, "R:"+k2+w)
+					if g.Thorough() {
+						g.Case("S:"+s+w, "T:"+k1+w, "R:"+k2+w)
+						g.Case("S:"+s+w, "R:"+k1+w, "T:"+k2+w)
+					}
+				}
+			}
+		}
+	}
+	// (b) the spelling changes from one reload to the next (the file a site was imported from is left behind, an inline
+	// site moves into a file and back): seeded random sequences, every operation in a spelling of its own
+	spells := []string{"", "", "/i", "/I", "/g", "/s", "/m", "/o"}
+	M := 250
+	if g.Thorough() {
+		M = 3000
+	}
+	for it := 0; it < M; it++ {
+		ops := []string{"S:" + hx.Pick(g.Rng, starts) + hx.Pick(g.Rng, spells)}
+		L := 2 + g.Rng.Intn(5)
+		for i := 0; i < L; i++ {
+			ops = append(ops, hx.Pick(g.Rng, alpha)+hx.Pick(g.Rng, spells))
+		}
+		g.Case(ops...)
+	}
+	// (c) a request that outlives the graceful period, configurations written with imports / in one block
+	for _, c := range [][]string{{"S:12/i", "L:12/i"}, {"S:12/g", "L:21/g", "R:12/g"}, {"S:12/m", "L:12/m"}, {"S:12/I", "L:12/I", "T:12/I"}} {
+		g.Case(c...)
+	}
 	if g.Thorough() {
 		for it := 0; it < 60; it++ {
 			ops := []string{"S:" + hx.Pick(g.Rng, starts)}
@@ -726,7 +908,8 @@ func c07Gen(g *hx.Gen) {
 		}
 		g.Case(ops...)
 	}
-	for _, m := range [][]string{{"R:1"}, {"S:"}, {"S:1", "Q"}, {"S:4"}, {"S:1x"}, {"S:3"}, {"S:1", "R:"}} {
+	for _, m := range [][]string{{"R:1"}, {"S:"}, {"S:1", "Q"}, {"S:4"}, {"S:1x"}, {"S:3"}, {"S:1", "R:"},
+		{"S:1/z"}, {"S:1/"}, {"S:1/ii"}, {"S:1", "R:1/i/i"}, {"S:/i"}, {"S:1y"}, {"S:1", "R:1xy"}, {"S:1/i", "R:1/"}} {
 		g.Case(m...)
 	}
 }
